@@ -106,6 +106,15 @@ func checkOneOf(c *core.Ctx, s string, convs []conv, twice bool) {
 		if len(words) > 1 {
 			c.Nontrivial(s)
 		}
+		if twice {
+			// the answer belongs to the caller: writing to it must not change what the next caller gets
+			first := strings.Join(words, "\x00")
+			scribble(words)
+			var again []string
+			if p := try(func() { again = camelcase.Split(s) }); p != nil || strings.Join(again, "\x00") != first {
+				c.Fail("C19-answer-shared-with-later-callers", cs, "Split(%s) returned %q; after the caller wrote to that slice, Split(%s) returns %q (panic=%v)", q(s), strings.Split(first, "\x00"), q(s), again, p)
+			}
+		}
 	}
 	for _, cv := range convs {
 		var a, b string
@@ -120,9 +129,17 @@ func checkOneOf(c *core.Ctx, s string, convs []conv, twice bool) {
 		if !twice {
 			continue
 		}
+		// (between the two calls another caller splits the same string and writes to what it got)
+		_ = try(func() { scribble(camelcase.Split(s)) })
 		if p := try(func() { b = cv.f(s) }); p != nil || a != b {
 			c.Fail("", cs, "%s(%s) is not pure: first %q then %q (panic=%v)", cv.name, q(s), a, b, p)
 		}
+	}
+}
+
+func scribble(words []string) {
+	for i := range words {
+		words[i] = "!" + strings.ToLower(words[i]) + "!"
 	}
 }
 
